@@ -345,6 +345,26 @@ def canon(ctx):
                 names = deep_call_names(w, t['args'][1])
                 if kind == 'Fixed' and not ('size' in flds and any('new_display' in x for x in names)):
                     bad.append('write! of %s' % sorted(flds))
+                if kind == 'Fixed':
+                    # the value displayed is fixed.size itself (no narrowing cast) and the format string is a bare "{}"
+                    for xb in sorted(r.blocks):
+                        xt = w.term(xb)
+                        if xt['k'] != 'call' or w.is_cleanup(xb):
+                            continue
+                        xc = strip_generics(cname(xt))
+                        if xc.endswith('Argument::new_display'):
+                            ao = origin(w, xt['args'][0])
+                            if ao.has_arith() or [x for x in ao.flags if x.startswith('cast:IntToInt')]:
+                                bad.append('size displayed after %s' % sorted(x for x in ao.flags if x.startswith(('cast:IntToInt', 'arith:'))))
+                        if xc.endswith('fmt::Arguments::new') or xc.endswith('fmt::Arguments::new_v1') or xc.endswith('fmt::Arguments::new_const'):
+                            tmpl = None
+                            to = origin(w, xt['args'][0])
+                            for a in to.atoms:
+                                if a[0] == 'const' and isinstance(a[1], (str, bytes)):
+                                    tmpl = a[1]
+                            raw = fmt_template_literals(w, xt['args'][0])
+                            if raw is None or raw[0] or raw[1]:
+                                bad.append('format string of the size is not a bare "{}" (literal text %r, format spec: %s)' % (raw[0] if raw else None, raw[1] if raw else None))
         if kind == 'Fixed':
             fm = [bb for bb in r.blocks if w.term(bb)['k'] == 'call' and strip_generics(cname(w.term(bb))).endswith('::write_fmt')]
             if len(fm) != 1:
@@ -358,6 +378,34 @@ def canon(ctx):
             continue
         got = region_template(w, r)
         ctx.ob('CANON', 'template/%s' % kind, got == want, short_loc(w.span), '%s is written as %s (spec template %s; $ = dynamic text, @ = nested schema, "," only between items)' % (kind, got, want))
+    canon_extra(ctx, w)
+
+
+def canon_extra(ctx, w):
+    """the named-once table is indexed by the node key itself; the separators are live code"""
+    f = ctx.f
+    n_idx = 0
+    bad = []
+    for b in [w] + f.closures_of(w):
+        for bb, t in b.calls():
+            if call_matches(t, ['IndexMut::index_mut', 'IndexMut<I>>::index_mut', 'Index::index', 'Index<I>>::index']):
+                vo = origin(b, t['args'][0])
+                if 'named_type_written' in vo.fields:
+                    n_idx += 1
+                    io = origin(b, t['args'][1])
+                    if io.has_arith() or 'idx' not in io.fields:
+                        bad.append(io.describe()[:80])
+    ctx.ob('CANON', 'named-once-index', n_idx >= 1 and not bad, short_loc(w.span),
+           'named_type_written is indexed by key.idx itself at %d site(s); transformed indices: %s' % (n_idx, bad or 'none'))
+    live = const_folded_reachable(w)
+    commas = []
+    for bb, t in w.calls():
+        c = strip_generics(cname(t))
+        if c.endswith('ErrorConversionWriter::write_char') and const_int(t['args'][1]) == ord(','):
+            commas.append(bb)
+    dead = [bb for bb in commas if bb not in live]
+    ctx.ob('CANON', 'separators-live', len(commas) >= 3 and not dead, short_loc(w.span),
+           '%d "," writes (record fields, enum symbols, union branches); unreachable once constant conditions are folded: %s' % (len(commas), dead or 'none'))
 
 
 def source(ctx):
@@ -387,7 +435,7 @@ def source(ctx):
     ok = False
     if rf is not None:
         ro = return_origin(rf)
-        ok = ro.fields == {'fingerprint'} and ro.params() == {1} and not ro.call_names()
+        ok = ro.fields == {'fingerprint'} and ro.params() == {1} and not ro.call_names() and not [a for a in ro.atoms if a[0] != 'param']
     ctx.ob('SOURCE', 'accessor-returns-field', ok, short_loc(rf.span) if rf else None, 'rabin_fingerprint() returns &self.fingerprint: %s' % ok)
     schema_state_rule(ctx)
     # canonical_form_rabin_fingerprint starts at the root with a fresh hasher and a fresh table
